@@ -682,6 +682,25 @@ func HugeValues(r *schema.Record) []*RecValue {
 	return out
 }
 
+// HugeArrayValue builds a value of r (struct or message) whose field named field - an array - holds n elements, everything
+// else small. Used for truncation near the header: a decoder must not size an allocation from the count alone.
+func HugeArrayValue(r *schema.Record, field string, n int) *RecValue {
+	rv := &RecValue{R: r, Fields: make([]*Value, len(r.Fields))}
+	found := false
+	for j, g := range r.Fields {
+		if g.Name == field && g.Type.Kind == schema.ArrayT {
+			rv.Fields[j] = bigValue(g.Type, n)
+			found = true
+		} else if r.Kind == schema.Struct {
+			rv.Fields[j] = Values(g.Type, 1)[1]
+		}
+	}
+	if !found {
+		return nil
+	}
+	return rv
+}
+
 // ThoroughBig selects the larger size list for BigValues inside RecValues (set once by the worker).
 var ThoroughBig bool
 
